@@ -15,9 +15,8 @@ theorem c16_advance_terminates (p : Parser) (scan : Scan) (sn : Option (List UIn
 
 /-- tokens processed (callbacks) by one `_advance_parsing` call are bounded by the bytes that remain plus one -/
 theorem c16_advance_cost (p : Parser) (scan : Scan) (sn : Option (List UInt8)) (h : Shape p) :
-    (advance p scan sn).ev.length ≤ (p.size - p.used) + 1 ∧
-    (advance p scan sn).p.ncb = p.ncb + (advance p scan sn).ev.length :=
-  ⟨(advance_spec p scan sn h).ev, (advance_spec p scan sn h).ncb⟩
+    (advance p scan sn).ev.length ≤ (p.size - p.used) + 1 :=
+  (advance_spec p scan sn h).ev
 
 /-- verify processes at most `size + 1` tokens -/
 theorem c16_verify_cost (p : Parser) (h : Shape p) : (verify p).2.2.length ≤ p.size + 1 := by
